@@ -36,4 +36,68 @@
 #define OPT_PASS(j)  ((((spifopt_settings.flags & SPIFOPT_SETTING_PREPARSE) != 0)) == ((OPT_TAB[j].flags & SPIFOPT_FLAG_PREPARSE) != 0))
 
 #define VMIN(a, b) ((a) < (b) ? (a) : (b))
+
+/* ---- contracts shared between the unit that proves them and units that use them at call sites ---- */
+
+/* find_short_option(char opt): FIRST table index whose short form is opt (a short form is a non-NUL
+ * letter: entries without one carry 0 and must never be found), else -1 and exactly one bad option.
+ * "first"/"none" through the ghost index vg_k.  EXTRA: behaviour-specific precondition. */
+#define CONTRACT_find_short_option(EXTRA) \
+__CPROVER_requires(OPTTAB_INV && OPT_HELP_INV && OPT_BAD_ROOM) \
+__CPROVER_requires(EXTRA) \
+__CPROVER_assigns(spifopt_settings.bad_opts, vg_help_calls) \
+__CPROVER_ensures(__CPROVER_return_value == -1 || \
+                  (0 <= __CPROVER_return_value && __CPROVER_return_value < OPT_N && \
+                   OPT_TAB[__CPROVER_return_value].short_opt == opt && opt != 0 && \
+                   (!((long) vg_k < __CPROVER_return_value) || OPT_TAB[vg_k].short_opt != opt) && \
+                   OPT_NO_BAD(__CPROVER_old(spifopt_settings.bad_opts), __CPROVER_old(vg_help_calls)))) \
+__CPROVER_ensures(__CPROVER_return_value != -1 || \
+                  ((!((long) vg_k < OPT_N) || OPT_TAB[vg_k].short_opt != opt || opt == 0) && \
+                   OPT_ONE_BAD(__CPROVER_old(spifopt_settings.bad_opts), __CPROVER_old(vg_help_calls))))
+
+/* find_long_option(opt): opt is registered string 1 (exact length vg_n1).  The table entry with ghost
+ * index vg_k has a real long name: registered string 2 (exact length vg_n2); vg_cmp is the outcome of
+ * comparing the two (env_options.h).  Entry vg_k matches iff its name equals the first vg_n2 characters
+ * of opt and opt continues with '=' or ends there.  Result: FIRST matching index, else -1 and one bad option. */
+#define LONG_MATCH_K(opt)  (vg_cmp == 0 && vg_n2 <= vg_n1 && ((opt)[vg_n2] == '=' || (opt)[vg_n2] == 0))
+#define CONTRACT_find_long_option \
+__CPROVER_requires(OPTTAB_INV && OPT_HELP_INV && OPT_BAD_ROOM) \
+__CPROVER_requires(VOPT_STR_OK(opt, vg_n1) && vg_p1 == (const char *) opt) \
+__CPROVER_requires(!((long) vg_k < OPT_N) || (VOPT_STR_OK(vg_p2, vg_n2) && vg_p2 == (const char *) OPT_TAB[vg_k].long_opt)) \
+__CPROVER_requires((long) vg_k < OPT_N || vg_p2 == NULL) \
+__CPROVER_assigns(spifopt_settings.bad_opts, vg_help_calls, vg_lastp, vg_lastn) \
+__CPROVER_ensures(__CPROVER_return_value == -1 || \
+                  (0 <= __CPROVER_return_value && __CPROVER_return_value < OPT_N && \
+                   (!((long) vg_k < __CPROVER_return_value) || !LONG_MATCH_K(opt)) && \
+                   (!((long) vg_k == __CPROVER_return_value) || LONG_MATCH_K(opt)) && \
+                   OPT_NO_BAD(__CPROVER_old(spifopt_settings.bad_opts), __CPROVER_old(vg_help_calls)))) \
+__CPROVER_ensures(__CPROVER_return_value != -1 || \
+                  ((!((long) vg_k < OPT_N) || !LONG_MATCH_K(opt)) && \
+                   OPT_ONE_BAD(__CPROVER_old(spifopt_settings.bad_opts), __CPROVER_old(vg_help_calls))))
+
+/* handle_arglist, hasequal == 0 ("swallow the rest of the line").  argv: argc+1 slots.  The slot with
+ * ghost index vg_k holds vg_old_ptr; when i <= vg_k < argc it is a real word (registered string 1).
+ * The strdup call number vg_k-i+1 is recorded (vg_dup_src/res); strdup = arena bump allocator. */
+#define ARGS_TARGET(n) (*((spif_charptr_t **) OPT_TAB[n].value))
+#define ARGS_REMOVE    ((spifopt_settings.flags & SPIFOPT_SETTING_REMOVE_ARGS) != 0)
+#define K_IN_REST      ((long) i <= (long) vg_k && (long) vg_k < (long) argc)
+#define CONTRACT_handle_arglist_rest(EXTRA) \
+__CPROVER_requires(OPTTAB_INV && 0 <= n && n < OPT_N && __CPROVER_rw_ok((spif_charptr_t **) OPT_TAB[n].value, sizeof(spif_charptr_t *))) \
+__CPROVER_requires(hasequal == 0) \
+__CPROVER_requires(1 <= i && i <= argc && argc <= 0x7ffffff0 && __CPROVER_rw_ok(argv, ((size_t) argc + 1) * sizeof(char *))) \
+__CPROVER_requires(EXTRA) \
+__CPROVER_requires(vg_k <= (size_t) argc && argv[vg_k] == (char *) vg_old_ptr) \
+__CPROVER_requires(__CPROVER_rw_ok(vg_arena, vg_arena_size) && vg_arena_off == 0) \
+__CPROVER_requires(!K_IN_REST || (VOPT_STR_OK(vg_p1, vg_n1) && vg_p1 == vg_old_ptr)) \
+__CPROVER_requires(K_IN_REST || vg_p1 == NULL) \
+__CPROVER_requires(vg_dup_calls == 0 && vg_dup_want == (K_IN_REST ? (unsigned long) vg_k - (unsigned long) i + 1 : 0UL)) \
+__CPROVER_assigns(ARGS_TARGET(n), __CPROVER_object_whole(argv), vg_dup_calls, vg_dup_src, vg_dup_res, vg_arena_off, __CPROVER_object_whole(vg_arena)) \
+/* result: fresh array of argc-i+1 slots, NULL-terminated */ \
+__CPROVER_ensures(__CPROVER_is_fresh(ARGS_TARGET(n), ((size_t) (argc - i) + 1) * sizeof(spif_charptr_t))) \
+__CPROVER_ensures(ARGS_TARGET(n)[argc - i] == NULL) \
+/* entry vg_k-i is the duplicate of word vg_k (so: argc-i non-NULL entries, in order) */ \
+__CPROVER_ensures(!K_IN_REST || (ARGS_TARGET(n)[(long) vg_k - i] == (spif_charptr_t) vg_dup_res && vg_dup_res != NULL && \
+                                 vg_dup_src == vg_old_ptr)) \
+/* argv: swallowed words cleared iff REMOVE_ARGS; everything else untouched */ \
+__CPROVER_ensures(argv[vg_k] == ((K_IN_REST && ARGS_REMOVE) ? (char *) NULL : (char *) vg_old_ptr))
 #endif
